@@ -296,46 +296,44 @@ fn structured_faults(doc: &Value, rng: &mut Rng, thorough: bool) -> Vec<FileFaul
     }
     // more than ten FRI layers: the file consistently describes 12 layers (extra commitment and
     // decommitment lines for layers 4.. with distinct values)
-    {
-        let mut d = doc.clone();
-        let steps = d["proof_parameters"]["stark"]["fri"]["fri_step_list"].as_array().cloned().unwrap_or_default();
-        let have = steps.len();
-        if have >= 2 && have < 12 {
-            let mut new_steps = steps.clone();
-            while new_steps.len() < 12 {
-                new_steps.push(json!(1));
-            }
-            d["proof_parameters"]["stark"]["fri"]["fri_step_list"] = Value::Array(new_steps);
-            // keep the log sizes non-negative for the parser: enlarge n_steps is not possible without
-            // touching the statement, so only do this when the domain is large enough
-            let a = ann_mut(&mut d);
-            let last_commit = (0..a.len()).rev().find(|i| a[*i].as_str().map(|s| s.contains("/STARK/FRI/Commitment/Layer ") && s.contains("Commitment: Hash(")).unwrap_or(false));
-            if let Some(mut at) = last_commit {
-                for layer in have..12 {
-                    at += 1;
-                    a.insert(at, json!(format!("P->V[0:32]: /cpu air/STARK/FRI/Commitment/Layer {layer}: Commitment: Hash(0x{:x})", 0xabc000 + layer)));
-                }
-                let mut end = a.len();
-                if let Some(stat) = (0..a.len()).find(|i| a[*i].as_str().map(|s| s.starts_with("Proof Statistics")).unwrap_or(false)) {
-                    end = stat;
-                }
-                let mut at = end;
-                for layer in have..12 {
-                    for r in 0..3 {
-                        a.insert(at, json!(format!("P->V[0:32]: /cpu air/STARK/FRI/Decommitment/Layer {layer}: Row {r}, Column 1: Field Element(0x{:x})", 0x5000 + 16 * layer + r)));
-                        at += 1;
-                    }
-                    for r in 0..2 {
-                        a.insert(at, json!(format!("P->V[0:32]: /cpu air/STARK/FRI/Decommitment/Layer {layer}: For node {}: Hash(0x{:x})", 100 + r, 0x7000 + 16 * layer + r)));
-                        at += 1;
-                    }
-                }
-                let spec = json!({"op": "whole-doc", "doc_sha": crate::proofrun::sha256_hex(serde_json::to_string(&d).unwrap().as_bytes())});
-                push("twelve-fri-layers", d, spec);
-            }
-        }
+    if let Some(d) = twelve_layers(doc) {
+        push("twelve-fri-layers", d, json!({"op": "twelve-fri-layers"}));
     }
     out
+}
+
+/// A file that consistently describes 12 FRI layers: fri_step_list extended with steps of 1 and
+/// commitment / decommitment lines added for the new layers (deterministic, no PRNG).
+fn twelve_layers(doc: &Value) -> Option<Value> {
+    let mut d = doc.clone();
+    let steps = d["proof_parameters"]["stark"]["fri"]["fri_step_list"].as_array().cloned().unwrap_or_default();
+    let have = steps.len();
+    if !(2..12).contains(&have) {
+        return None;
+    }
+    let mut new_steps = steps.clone();
+    while new_steps.len() < 12 {
+        new_steps.push(json!(1));
+    }
+    d["proof_parameters"]["stark"]["fri"]["fri_step_list"] = Value::Array(new_steps);
+    let a = ann_mut(&mut d);
+    let mut at = (0..a.len()).rev().find(|i| a[*i].as_str().map(|s| s.contains("/STARK/FRI/Commitment/Layer ") && s.contains("Commitment: Hash(")).unwrap_or(false))?;
+    for layer in have..12 {
+        at += 1;
+        a.insert(at, json!(format!("P->V[0:32]: /cpu air/STARK/FRI/Commitment/Layer {layer}: Commitment: Hash(0x{:x})", 0xabc000 + layer)));
+    }
+    let mut at = (0..a.len()).find(|i| a[*i].as_str().map(|s| s.starts_with("Proof Statistics")).unwrap_or(false)).unwrap_or(a.len());
+    for layer in have..12 {
+        for r in 0..3 {
+            a.insert(at, json!(format!("P->V[0:32]: /cpu air/STARK/FRI/Decommitment/Layer {layer}: Row {r}, Column 1: Field Element(0x{:x})", 0x5000 + 16 * layer + r)));
+            at += 1;
+        }
+        for r in 0..2 {
+            a.insert(at, json!(format!("P->V[0:32]: /cpu air/STARK/FRI/Decommitment/Layer {layer}: For node {}: Hash(0x{:x})", 100 + r, 0x7000 + 16 * layer + r)));
+            at += 1;
+        }
+    }
+    Some(d)
 }
 
 fn byte_faults(text: &str, rng: &mut Rng, thorough: bool) -> Vec<FileFault> {
@@ -552,6 +550,7 @@ fn rebuild(rep: &Value) -> Result<String, String> {
             m.insert(spec["to"].as_str().ok_or("to")?.to_string(), v);
             doc
         }
+        Some("twelve-fri-layers") => twelve_layers(&doc).ok_or("file cannot be extended to 12 layers")?,
         Some("whole-public-input") => {
             doc["public_input"] = spec["public_input"].clone();
             doc
